@@ -1103,6 +1103,7 @@ def oracle_e2e(case, obs):
     flows = obs["flows"]
     # ---------- upstream: every forwarded request parses, under the reference parser, to exactly the recorded flow
     forwarded = []
+    req_incomplete = set()
     for fi, conn, data in obs["up"]:
         data = unhx(data)
         if fi is None or fi >= len(flows):
@@ -1122,6 +1123,7 @@ def oracle_e2e(case, obs):
                 qs = ref_parse_requests(o, data)
             except RefErr as e:
                 if e.kind == INCOMPLETE and fi < len(case["policy"]) and case["policy"][fi] in ("stream-req", "stream-both"):
+                    req_incomplete.add(fi)
                     continue      # a streamed request whose body the client never completed
                 if o is STRICT:
                     k = _diagnose(q["headers"], first, dflt)
@@ -1158,6 +1160,9 @@ def oracle_e2e(case, obs):
             try:
                 p, s = ref_parse_response(STRICT, m, s)
             except RefErr as e:
+                if e.kind == INCOMPLETE and fi in req_incomplete:
+                    p, stop = None, True      # the end of the response is held back until the client completes its streamed request
+                    break
                 if e.kind == INCOMPLETE and f["error"]:
                     p, stop = None, True      # a streamed response aborted by an upstream error; the connection is closed
                     break
